@@ -3,6 +3,7 @@ pub mod tt;
 pub mod engine;
 pub mod walk;
 pub mod big;
+pub mod bighist;
 pub mod prodform;
 #[macro_use]
 pub mod bddi;
